@@ -5,6 +5,7 @@ import itertools
 import re
 
 from sa import astutil as A
+from sa import flow as F
 from sa import pureeval as PE
 from sa.model import AnalysisError
 from sa.report import RuleResult
@@ -585,4 +586,95 @@ def label_name_rules(m, rid):
         r.error("extract_label/extract_construct_name cannot be interpreted statically (%s)" % err)
     except PE.PyRaise as err:
         r.fail("extract|raises", "label/name extraction raises %s" % err.exc_type, m.loc(el))
+    return r
+
+
+# =================================================================================================
+# C15.R3: in fixed form every physical line read from the source passes the sentinel replacement
+# before it is classified as a comment or handed out
+# =================================================================================================
+class SentinelClient(F.Client):
+    """$raw: the current line came from the source and has not been through replace_omp_sentinels yet."""
+    track = {"$raw", "@omp", "@fixed", "line", "ignore_comments", "ignore_empty"}
+
+    def __init__(self, readers):
+        self.readers = readers     # names of methods that read a physical line from the source
+        self.bad = []
+        self.attr_vars = {"self._include_omp_conditional_lines": "@omp", "self._format.is_fixed": "@fixed"}
+
+    def _is_read(self, call):
+        t = A.text(call.func)
+        if t == "next" and call.args and A.text(call.args[0]) == "self.source":
+            return True
+        return isinstance(call.func, ast.Attribute) and A.text(call.func.value) == "self" and call.func.attr in self.readers
+
+    def call_raises(self, call, st):
+        if A.text(call.func) == "next" and call.args and A.text(call.args[0]) == "self.source":
+            return ("StopIteration",)
+        if A.text(call.func) == "self.filo_line.pop":
+            return ("IndexError",)
+        return ()
+
+    def call_effect(self, call, st):
+        t = A.text(call.func)
+        if self._is_read(call):
+            return (st.set("$raw", F.TRUE),)
+        if t.endswith("replace_omp_sentinels"):
+            return (st.set("$raw", F.FALSE),)
+        if t == "_is_fix_comment" and st.get("$raw") == F.TRUE:
+            self.bad.append((call, "is classified as a comment"))
+        return (st,)
+
+
+class SentinelFlow(F.Flow):
+    def split_leaf(self, test, st):
+        if isinstance(test, ast.Attribute) and A.dotted(test) in self.c.attr_vars:
+            name = self.c.attr_vars[A.dotted(test)]
+            t, f = self.truth_vals(st.get(name))
+            return ({st} if t else set()), ({st} if f else set())
+        return F.Flow.split_leaf(self, test, st)
+
+
+def c15_flow_rule(m):
+    from sa import flow as F_
+    r = RuleResult("C15.R3", "with conditional lines enabled in fixed form, every line read from the source has its sentinel replaced before it "
+                             "is classified as a comment or returned")
+    r.floor = 1
+    k = m.key("FortranReaderBase", RF)
+    gsl = m.method(k, "get_single_line")
+    if gsl is None:
+        r.error("get_single_line vanished")
+        return r
+    # methods of the reader that read a physical line from the source (other than get_single_line itself)
+    readers = set()
+    for name, d in m.classes[k]["own"].items():
+        f = m.method(k, name)
+        if f is None or name in ("get_single_line", "get_next_line"):
+            continue
+        if any(A.text(c.func) == "next" and c.args and A.text(c.args[0]) == "self.source" for c in A.calls(f.node)):
+            # does that helper replace the sentinel itself?
+            if not any(A.text(c.func).endswith("replace_omp_sentinels") for c in A.calls(f.node)):
+                readers.add(name)
+    cl = SentinelClient(readers)
+    fl = SentinelFlow(m, gsl, cl)
+    out = fl.run(F.State({"$raw": F.FALSE, "@omp": F.TRUTHY, "@fixed": F.TRUTHY}))
+    r.instances += 1
+    bad = list(cl.bad)
+    n = 0
+    for st, node in out.ret:
+        if node is None or node.value is None:
+            continue
+        if isinstance(node.value, ast.Call) and A.text(node.value.func) == "self.get_single_line":
+            continue      # recursion: the callee re-establishes the invariant for the line it returns
+        n += 1
+        if st.get("$raw") == F.TRUE and not (isinstance(node.value, ast.Constant) and node.value.value is None):
+            if isinstance(node.value, ast.Name) and st.get(node.value.id) == F.NONE:
+                continue
+            bad.append((node, "is returned"))
+    r.ob(not bad, "get_single_line: %d returning states; helper readers %s" % (n, sorted(readers)))
+    if bad:
+        node, what = bad[0]
+        r.fail("get_single_line|raw-line|%s" % what.replace(" ", "-"), "get_single_line: with conditional lines enabled (fixed form) a line read from the "
+               "source %s at `%s` without having passed replace_omp_sentinels: an enabled `c$`/`!$` line reached that way is dropped as a comment"
+               % (what, A.text(node)[:60]), m.loc(gsl, node))
     return r
